@@ -62,7 +62,7 @@ def ramp(nchan, coords, salt):
     z = np.arange(zmin, zmax).reshape(1, -1, 1, 1)
     y = np.arange(ymin, ymax).reshape(1, 1, -1, 1)
     x = np.arange(xmin, xmax).reshape(1, 1, 1, -1)
-    v = 20 + 3 * x + 7 * y + 13 * z + 29 * c + (salt % 5) * 4
+    v = 10 + 3 * x + 8 * y + 15 * z + 60 * c + (salt % 5) * 4
     return np.clip(v, 0, 255).astype(np.uint8)
 
 
